@@ -18,7 +18,13 @@
         `await _receive` returns normally; the same packet delivered the way the faces do (a task nobody
         holds) leaves nothing in the loop's exception handler after gc; pending Interests and handlers that
         the packet does not address (by name) are untouched; afterwards every still-pending Interest
-        completes normally with its Data and every handler still gets its Interest.
+        completes normally with its Data and every handler still gets its Interest;
+      * the same oracle in the REACHABLE STATES of the pending-Interest table (oracle_states): the table is first
+        brought, by a history, into a state described by a word (several Interests under the packet's name:
+        waiting, given up / expiring in the very loop turn in which the packet is processed -- entry still listed,
+        future already cancelled --, completed earlier in each way, under validation; CanBePrefix parents; foreign
+        implicit digests), then the packet is handed over awaited / as a task / as a task in the loop iteration in
+        which the lifetime timers fire.
 """
 import asyncio
 import copy
@@ -40,8 +46,19 @@ RULE = ('(A) packet lists (types/lengths over all four var-number forms incl. no
         'without reason, IDLE LpPacket, fragmented LpPacket, unknown types) and its C07 mutant stream (byte edits, '
         'truncations, Type/Length edits in all forms, structural edits at every level), with consistent and '
         'inconsistent (typ, outer Length) framing, random byte strings; states with 0-4 pending Interests '
-        '(some named like the packet) and 0-3 handlers.  non-trivial = stream/packet of >= 4 bytes; distinct by '
-        '(part, input) hash')
+        '(some named like the packet) and 0-3 handlers.  Reachable table states: the table is brought by a history '
+        '(express, earlier Data / Nack / cancellation / expiry, Data under validation) into the state given by a word '
+        'over {waiting, waiting with a foreign implicit digest, caller gives up in the loop turn of the packet, lifetime '
+        'timer fires in the loop turn of the packet, given up / timed out / satisfied / nacked earlier, validator still '
+        'running, CanBePrefix parent waiting / given up in this turn, unrelated name}; several entries share the '
+        'packet\'s name, in every order: all words of length <= 2 (thorough: 3) + sampled words of length 3-6, against '
+        'Data (bare, in an LpPacket), Nack (with / without reason), Interest and dropped packets (cut, trailing byte, '
+        'fragment-labelled), handed over awaited / as a task created in the turn of the cancellation / as a task created in '
+        'the loop iteration in which the lifetime timers fire; plus random words around the packets of the mutant stream.  '
+        'Oracle there: reception returns normally, the waiting entries the packet addresses complete with it, nobody '
+        'else is touched, entries ending in that turn end with Canceled / Timeout (or the packet), everybody still '
+        'waiting completes with its own Data afterwards, nothing reaches the loop exception handler.  '
+        'non-trivial = stream/packet of >= 4 bytes; distinct by (part, input) hash')
 ASSUMPTIONS = [
     'asyncio.StreamReader.readexactly consumes nothing until n bytes are buffered; tasks start in creation order '
     '(modelled, exercised unmodified by the correspondence run)',
@@ -904,7 +921,332 @@ def oracle_receive(ctx, front, loop, origin, typ, w, action, npend, nhand):
         if not t.done():
             t.cancel()
     loop.settle()
+    retrieve([t for _, t, _ in sc.pend])
     loop.errors.clear()
+
+
+# ---- reception in the reachable states of the pending-Interest table ------------------------------------
+# A table state is described by a word, one letter per Interest, in the order in which they were expressed.
+# N = the name the packet carries (when the encoder can express it; a fixed name otherwise).
+#   W  named N, waiting                         H  named N + an implicit digest the packet does not have, waiting
+#   C  named N, its caller gives up in the loop turn in which the packet is processed (entry still listed)
+#   T  named N, its lifetime timer fires in the loop turn in which the packet is processed (entry still listed)
+#   G  named N, given up earlier     X  named N, timed out earlier     D / Q  named N, satisfied / nacked earlier
+#   V  named N, satisfied earlier, its validator is still running
+#   P  named by the parent of N with CanBePrefix, waiting      p  the same, caller gives up in this loop turn
+#   U  another name, waiting
+STATE_KINDS = 'WHCTGXDQVPpU'
+T_LIFETIME = 1000       # ms, the T entries
+X_LIFETIME = 40         # ms, the X entries
+
+
+def classify_action(M, f, loop, typ, w):
+    """whom the packet addresses: the model's classification (the instrumented implementation without a model)"""
+    if M:
+        a = M([4, f.ver, None if f.nd is None else [f.nd], typ, w])
+        if not (is_err(a) and a[1] == 98):
+            return a
+    ia = f.classify(loop, typ, w)
+    return [ia[0] if isinstance(ia[0], int) else 0] + ia[1:]
+
+
+def usable_name(comps):
+    """components the *encoder* accepts in a plain Interest/Data name (no invalid type 0, no digest components)"""
+    def usable(c):
+        try:
+            t, _ = TG.read_num(c, 0)
+        except Exception:   # noqa
+            return False
+        return t not in (0, 1, 2) and t <= 65535
+    return bool(comps) and all(usable(c) for c in comps)
+
+
+def oracle_states(ctx, front, loop, origin, typ, w, action, word, mode):
+    """deliver (typ, w) to an application whose pending-Interest table is in the state [word]; mode = how the
+    packet is handed over: 'await' (reception awaited in the turn in which the callers of C/p give up), 'task'
+    (the way the faces do it: a task created in that turn), 'timer' (a task created in the loop turn in which the
+    lifetime timers of the T entries fire; chosen whenever the word has a T)"""
+    import hashlib
+    from ndn.encoding import make_data, MetaInfo, Name, Component
+    from ndn.types import InterestNack, InterestTimeout, InterestCanceled
+    rng = ctx.rng
+    ver = front.ver
+    site = f'appv{ver}._receive'
+    app = front.new_app()
+    pkt_name = [bytes(c) for c in action[1]] if action[0] in (2, 3, 4) else None
+    nN = pkt_name if (pkt_name and usable_name(pkt_name)) else [bytes(c) for c in Name.from_str('/st/n')]
+    nP = nN[:-1] if len(nN) >= 2 else None
+    nU = [bytes(c) for c in Name.from_str('/st/u')]
+    if 'T' in word:
+        mode = 'timer'
+    elif mode == 'timer':
+        mode = 'task'
+    after = {}
+
+    def after_wire(nm):
+        k = tuple(nm)
+        if k not in after:
+            after[k] = bytes(make_data(list(nm), MetaInfo(), b'after'))
+        return after[k]
+    nH = nN + [bytes(Component.from_bytes(hashlib.sha256(after_wire(nN)).digest(), Component.TYPE_IMPLICIT_SHA256))]
+
+    async def v2_ok(name, sig, context):
+        return front.mod.ValidResult.PASS
+
+    async def v1_ok(name, sig):
+        return True
+
+    async def v2_slow(name, sig, context):
+        await asyncio.sleep(2.0)
+        return front.mod.ValidResult.PASS
+
+    async def v1_slow(name, sig):
+        await asyncio.sleep(2.0)
+        return True
+    entries = []
+
+    def express(kind, nm, lifetime, slow=False, cbp=None):
+        cbp = (rng.random() < 0.3) if cbp is None else cbp
+
+        async def go():
+            if ver == 2:
+                co = app.express(list(nm), v2_slow if slow else v2_ok, lifetime=lifetime, can_be_prefix=cbp,
+                                 nonce=len(entries) + 1)
+            else:
+                co = app.express_interest(list(nm), validator=v1_slow if slow else v1_ok, lifetime=lifetime,
+                                          can_be_prefix=cbp, nonce=len(entries) + 1)
+            return loop.create_task(co)
+        t = loop.run_until_complete(go())
+        loop.settle()
+        e = {'kind': kind, 'name': list(nm), 'task': t, 'cbp': cbp, 'wire': app.face.sent[-1] if app.face.sent else b''}
+        entries.append(e)
+        return e
+
+    def recv_now(t_, w_):
+        loop.run_until_complete(app._receive(t_, w_))
+        loop.settle()
+    case = {'front': ver, 'typ': typ, 'wire': w, 'origin': origin, 'table': word, 'mode': mode,
+            'name': b''.join(nN)}
+    loop.errors.clear()
+    early = bytes(make_data(list(nN), MetaInfo(), b'early'))
+    try:
+        # -- the history that produces the state
+        for k in word:
+            if k == 'D':
+                express(k, nN, 60000)
+                recv_now(6, early)
+            elif k == 'Q':
+                e = express(k, nN, 60000)
+                recv_now(0x64, G.tlv(0x64, G.tlv(0x320, G.tlv(0x321, b'\x32')) + G.tlv(0x50, e['wire'])))
+        if 'V' in word:
+            for k in word:
+                if k == 'V':
+                    express(k, nN, 60000, slow=True)
+            recv_now(6, early)
+        t2 = loop.time()
+        for k in word:
+            if k in 'WCG':
+                express(k, nN, 60000)
+            elif k == 'H':
+                express(k, nH, 60000)
+            elif k == 'T':
+                express(k, nN, T_LIFETIME)
+            elif k == 'X':
+                express(k, nN, X_LIFETIME)
+            elif k in 'Pp':
+                if nP is not None:
+                    express(k, nP, 60000, cbp=True)
+            elif k == 'U':
+                express(k, nU, 60000)
+        for e in entries:
+            if e['kind'] == 'G':
+                e['task'].cancel()
+        loop.settle()
+        if 'X' in word:
+            loop.advance_to(loop.time() + 0.06)
+    except Exception as e:   # noqa
+        ctx.violation(site, f'history-raises:{exc_class(e)}', f'building the table state raised {e!r}', case)
+        for e2 in entries:
+            e2['task'].cancel()
+        loop.settle()
+        retrieve([e2['task'] for e2 in entries])
+        loop.errors.clear()
+        return
+    before = [e['task'].done() for e in entries]
+    for e, d in zip(entries, before):
+        if d != (e['kind'] in 'GXDQ'):
+            # the history itself went wrong (an earlier Data / Nack / cancellation / expiry did not do its job)
+            ctx.violation(site, 'history-outcome', f'entry {e["kind"]} is {"done" if d else "pending"} before the packet arrives', case)
+    giving_up = [e for e in entries if e['kind'] in 'Cp']
+    rx = []
+
+    # -- the packet
+    async def go_await():
+        for e in giving_up:
+            e['task'].cancel()
+        try:
+            await app._receive(typ, w)
+            return None
+        except Exception as e:   # noqa
+            return e
+
+    def hand_over():
+        rx.append(loop.create_task(app._receive(typ, w)))
+        for e in giving_up:
+            e['task'].cancel()
+
+    async def go_task():
+        hand_over()
+    exc = None
+    if mode == 'await':
+        exc = loop.run_until_complete(go_await())
+    elif mode == 'task':
+        loop.run_until_complete(go_task())
+    else:
+        # the loop is busy around the expiry; the transport has the packet just before it: the hand-over and the
+        # lifetime timers are processed in one loop iteration, the reception task runs before the expired waiters
+        dl = t2 + T_LIFETIME / 1000.0
+
+        def busy():
+            loop._vt += 0.040
+        loop.call_at(dl - 0.020, busy)
+        loop.call_at(dl - 0.005, hand_over)
+        loop.advance_to(dl + 0.1)
+    loop.settle()
+    where = 'decode' if action[0] in (0, 1) else {2: '_on_nack', 3: '_on_interest', 4: '_on_data'}[action[0]]
+    if rx:
+        if not rx[0].done():
+            ctx.violation(site, 'reception-does-not-return', 'the reception task is still running at quiescence', case)
+            rx[0].cancel()
+        elif not rx[0].cancelled():
+            exc = rx[0].exception()
+    elif mode == 'timer':
+        ctx.violation(site, 'harness:not-handed-over', 'the packet was not handed over (harness)', case)
+    if exc is not None:
+        ctx.violation(site, f'raises:{exc_class(exc)}:{where}',
+                      f'_receive raised {type(exc).__name__} ({str(exc)[:80]}) with the table in state {word!r}', case)
+
+    # -- what became of the entries
+    def outcome(t):
+        if not t.done():
+            return ('pending',)
+        if t.cancelled():
+            return ('CancelledError',)
+        e = t.exception()
+        if e is None:
+            r = t.result()
+            content = r[1] if ver == 2 else r[2]
+            return ('data', [bytes(c) for c in r[0]], None if content is None else bytes(content))
+        if isinstance(e, InterestNack):
+            return ('nack', e.reason)
+        return (exc_class(e),)
+
+    def hexname(nm):
+        return b''.join(nm).hex()
+    for e in entries:
+        k, o = e['kind'], outcome(e['task'])
+        if k in 'WHPU':
+            if k == 'W':
+                addressed = action[0] in (2, 4)
+            elif k == 'P':
+                addressed = action[0] == 4
+            else:
+                addressed = False
+            if addressed and pkt_name != nN:
+                addressed = False
+            if addressed:
+                want = ('data', pkt_name) if action[0] == 4 else ('nack', action[2])
+                if o[:2] != want:
+                    ctx.violation(site, 'pending-interest-not-completed',
+                                  f'entry {k} ({hexname(e["name"])}) is addressed by the packet; expected {want!r}, it is {o[:2]!r}', case)
+            elif o != ('pending',):
+                ctx.violation(site, 'pending-interest-disturbed',
+                              f'entry {k} ({hexname(e["name"])}) is not addressed by the packet and ended with {o[:2]!r}', case)
+        elif k in 'Cp':
+            if o[0] not in ('InterestCanceled', 'CancelledError', 'data', 'nack'):
+                ctx.violation(site, 'pending-interest-wrong-outcome:given-up',
+                              f'entry {k} whose caller gave up in the turn of the packet ended with {o!r}', case)
+        elif k == 'T':
+            if o[0] not in ('InterestTimeout', 'data', 'nack'):
+                ctx.violation(site, 'pending-interest-wrong-outcome:expiring',
+                              f'entry T whose lifetime ended in the turn of the packet ended with {o!r}', case)
+    if 'V' in word:
+        loop.advance_to(loop.time() + 3.0)
+        for e in entries:
+            if e['kind'] == 'V':
+                o = outcome(e['task'])
+                if o != ('data', nN, b'early'):
+                    ctx.violation(site, 'pending-interest-wrong-outcome:validating',
+                                  f'entry V (Data under validation when the packet arrived) ended with {o!r}', case)
+    # -- aftermath: whoever is still waiting completes with its own Data
+    for e in entries:
+        if e['task'].done():
+            continue
+        d = after_wire(nN if e['kind'] == 'H' else e['name'])
+        try:
+            if rng.random() < 0.5:
+                recv_now(6, d)
+            else:
+                recv_now(0x64, G.tlv(0x64, G.tlv(0x62, b'\x07') + G.tlv(0x50, d)))
+            o = outcome(e['task'])
+        except Exception as e2:   # noqa
+            o = ('reception raised ' + exc_class(e2),)
+        if o[0] != 'data' or o[2] != b'after':
+            ctx.violation(site, 'pending-interest-lost',
+                          f'entry {e["kind"]} ({hexname(e["name"])}) does not complete with its Data afterwards ({o!r})', case)
+    errs = loop.collect_errors()
+    loop.errors.clear()
+    if errs:
+        e = errs[0].get('exception')
+        ctx.violation(site, f'loop-error:{exc_class(e) if e is not None else "none"}',
+                      f'loop exception handler called: {errs[0].get("message")} {e!r}', case)
+    for e in entries:
+        if not e['task'].done():
+            e['task'].cancel()
+    loop.settle()
+    retrieve([e['task'] for e in entries] + rx)
+    loop.errors.clear()
+    ctx.case(('t', ver, typ, w, word, mode), True, case if len(word) <= 3 else None,
+             f'recv.v{ver}.table.{mode}.{["drop", "raise", "nack", "interest", "data"][action[0]]}')
+
+
+def state_words(ctx):
+    """every word up to length 2 (3 in the thorough tier) + longer sampled ones biased to entries under N"""
+    import itertools
+    rng = ctx.rng
+    words = []
+    for n in range(1, (3 if ctx.thorough else 2) + 1):
+        words += [''.join(t) for t in itertools.product(STATE_KINDS, repeat=n)]
+    for _ in range(ctx.n(150, 3000)):
+        words.append(''.join(rng.choice('WWWCCTTHGXDQVPpU') for _ in range(rng.randint(3, 6))))
+    return words
+
+
+def table_packets(ctx, idx):
+    """ordinary packets around one name (kind, typ, wire): the state quantifier is the point here, not the bytes"""
+    from ndn.encoding import make_interest, make_data, InterestParam, MetaInfo
+    from ndn.encoding import ndnlp_v2 as LP
+    rng = ctx.rng
+    nm = '/st/%d/n' % (idx % 5)
+    inter = bytes(make_interest(nm, InterestParam(nonce=rng.getrandbits(32), lifetime=4000)))
+    data = bytes(make_data(nm, MetaInfo(), rng.choice([b'', b'content', None])))
+    tok = G.tlv(0x62, G.rand_bytes(rng, rng.choice([0, 1, 8])))
+    return [('data', 6, data),
+            ('data-lp', 0x64, G.tlv(0x64, tok + G.tlv(0x50, data))),
+            ('nack', 0x64, bytes(LP.make_network_nack(inter, rng.choice([0, 50, 100, 150, 70000])))),
+            ('nack-noreason', 0x64, G.tlv(0x64, G.tlv(0x320, b'') + G.tlv(0x50, inter))),
+            ('interest', 5, inter),
+            ('data-cut', 6, data[:-1]),
+            ('data-trail', 6, data + b'\x00'),
+            ('fragmented-data', 0x64, G.tlv(0x64, G.tlv(0x52, b'\x01') + G.tlv(0x50, data)))]
+
+
+def retrieve(tasks):
+    """the harness is done with these tasks: an outcome nobody looked at (InterestCanceled of an Interest the harness
+    itself cancelled ...) must not show up as "Task exception was never retrieved" in a LATER scenario on this loop"""
+    for t in tasks:
+        if t.done() and not t.cancelled():
+            t.exception()
 
 
 def exc_class(e):
@@ -974,16 +1316,37 @@ def part_receive(ctx, only=None):
                                   f'_receive raised (class code {ia[1]}) before any handler was called', case)
                 if with_oracle:
                     oracle_receive(ctx, f, loop, origin, typ, w, a, rng.randint(0, 4), rng.randint(0, 3))
+                    # the same packet against a table brought into a random reachable state
+                    if rng.random() < (0.35 if a[0] in (2, 3, 4) else 0.08):
+                        word = ''.join(rng.choice('WWWCCTTHGXDQVPpU') for _ in range(rng.randint(1, 5)))
+                        oracle_states(ctx, f, loop, origin, typ, w, a, word, rng.choice(['await', 'task']))
                 ctx.case(('r', f.ver, typ, w), len(w) >= 4, case if a[0] != 0 else None,
                          f'recv.v{f.ver}.{origin.split(".")[0]}.{["drop", "raise", "nack", "interest", "data"][a[0]]}')
 
         if only is not None:
-            for typ, w in only:
+            for typ, w, *tbl in only:
+                if tbl and tbl[0]:
+                    # a stored table scenario: the same state word and hand-over mode, both front-ends
+                    for f in fronts:
+                        oracle_states(ctx, f, loop, 'replay', typ, w, classify_action(M, f, loop, typ, w), tbl[0], tbl[1])
+                    continue
                 for _ in range(8):          # several random states around the same packet
                     one('replay', typ, w, True)
             return
         for typ, w in KNOWN_WITNESSES:
             one('corpus', typ, w, True)
+        # ordinary packets against every small state of the pending-Interest table (and sampled larger ones)
+        for wi, word in enumerate(state_words(ctx)):
+            pk = table_packets(ctx, wi)
+            chosen = pk[:4:3] + rng.sample(pk[1:3] + pk[4:], 2) if not ctx.thorough or len(word) > 2 else pk
+            for kind, typ, w in chosen:
+                for f in fronts:
+                    a = classify_action(M, f, loop, typ, w)
+                    oracle_states(ctx, f, loop, 'table.' + kind, typ, w, a, word, rng.choice(['await', 'task']))
+                    counter[0] += 1
+                    if counter[0] % 400 == 1:
+                        gc.collect()
+                        gc.freeze()
         pk = valid_packets(ctx)
         budget = ctx.n(5000, 40000)           # oracle scenarios (each builds an application)
         total = 0
@@ -1041,7 +1404,7 @@ def replay(ctx, data):
     elif 'datagram' in case:
         part_udp(ctx, only=[case['datagram']])
     elif 'wire' in case:
-        part_receive(ctx, only=[(case['typ'], case['wire'])])
+        part_receive(ctx, only=[(case['typ'], case['wire'], case.get('table'), case.get('mode', 'task'))])
     else:
         ctx.notes.append('replay: unknown case shape; full run repeated')
         run(ctx)
